@@ -96,6 +96,7 @@ type Stats struct {
 	Extra        map[string]any `json:"extra,omitempty"`
 	hset         map[uint64]bool
 	out          string
+	last         *Case
 }
 
 func newStats() *Stats {
@@ -122,11 +123,15 @@ func (s *Stats) write() {
 	}
 	sort.Strings(hs)
 	s.Hashes = hs
+	if len(s.Samples) == 0 && s.last != nil {
+		s.Samples = append(s.Samples, map[string]any{"case": s.last, "outcome": "last case executed (no non-trivial case was sampled)"})
+	}
 	b, _ := json.Marshal(s)
 	os.WriteFile(filepath.Join(s.out, "summary.json"), b, 0o644)
 }
 
 func (s *Stats) cur(c *Case) {
+	s.last = c
 	if s.out != "" {
 		os.WriteFile(filepath.Join(s.out, "cur.json"), c.JSON(), 0o644)
 	}
